@@ -42,10 +42,13 @@ type State struct {
 	lastLockSnap     *State
 }
 
+// rangeIter is the ghost state of a `for k, v := range m` loop over a map: the set of keys already visited.
+// Keys come in an arbitrary order; the loop ends exactly when every key of the map has been visited.
 type rangeIter struct {
-	mapVal  Value
-	mapType *types.Map
-	k       Term // number of completed iterations
+	mapRef  Term
+	mapT    types.Type
+	visited Term // Array Int Bool
+	nextIn  *ssa.Next
 }
 
 func (st *State) clone() *State {
